@@ -271,11 +271,11 @@ var exprAtoms = []string{
 // C05: node positions are sound
 
 type posInfo struct {
-	pos, end   int
-	ok         bool // Pos/End did not panic
-	rangeBad   bool
-	posMis     bool
-	endMis     bool
+	pos, end int
+	ok       bool // Pos/End did not panic
+	rangeBad bool
+	posMis   bool
+	endMis   bool
 }
 
 // CheckC05 observes one case. It returns the parse for reuse.
